@@ -1,19 +1,22 @@
-(** Model of the Bolt-backed cron service (crolt/cron.go, package main).
+(** Model of the Bolt-backed cron service (crolt/cron.go, package main),
+    after the repairs of D40 (Add clears the TId decoded from the request) and
+    D39 (time keys are rendered with the fixed-width layout TimeKeyLayout).
     Model file: definitions only, no proofs (proofs: proofs/CroltProofs.v).
 
     The Bolt file holds, per partition p, a bucket jobs<p> (key aid =
     "account,id", value = the job as JSON) and a bucket time<p> (key tid =
-    "<RFC3339Nano instant>,<aid>", value = the same JSON); [Job.TId] links the
-    two.  The partition of a job is a function of its account only
-    ([partition]), so the model keeps ONE jobs map and ONE time map and reads
-    bucket p as "the entries whose account hashes to p".
+    "<instant>,<aid>", value = the same JSON); [Job.TId] links the two.  The
+    partition of a job is a function of its account only ([partition]), so the
+    model keeps ONE jobs map and ONE time map and reads bucket p as "the
+    entries whose account hashes to p".
 
-    Time keys.  A tid is modelled as the pair (instant in ns, aid).  Bolt
-    orders keys bytewise, and the RFC3339Nano rendering trims trailing zeros of
-    the fraction, so within one second the order of the keys is the order of
-    the strings [frac ++ "Z," ++ aid], not of the instants ([tkey_cmp]).  The
-    date-time part up to the seconds has fixed width (years 0000-9999, UTC), so
-    its order is the order of the whole seconds.
+    Time keys.  A tid is modelled as the pair (instant in ns, aid).  The
+    instant is rendered with nine fraction digits in UTC
+    ("2006-01-02T15:04:05.000000000Z07:00"), so for years 0000-9999 the
+    rendering has a fixed width and Bolt's bytewise order of the keys
+    "<instant>,<aid>" is the order of the pairs: by instant, then by aid
+    (bytewise) ([tkey_cmp]).  The bound of work is the rendering of now alone:
+    a key is <= it iff its instant is strictly earlier ([key_due]).
 
     Instants computed from the clock ([set]: now+duration, now+TTL, next cron
     occurrence) are inputs of the operations. *)
@@ -42,41 +45,18 @@ Definition crolt_init (parts : Z) : crolt := mkC [] [] parts.
 
 (** ** Keys *)
 
-Definition digit (d : Z) : ascii := ascii_of_nat (48 + Z.to_nat d).
-
-(** [k] digits of [n < 10^k], trailing zeros trimmed. *)
-Fixpoint frac_digits (k : nat) (n : Z) : string :=
-  match k with
-  | O => ""
-  | S k' =>
-      if n =? 0 then ""
-      else let p := Z.pow 10 (Z.of_nat k') in
-           String (digit (n / p)) (frac_digits k' (n mod p))
-  end.
-
-Definition frac (n : Z) : string :=
-  if n =? 0 then "" else String "." (frac_digits 9 n).
-
-(** What follows the seconds in the key. *)
-Definition key_rest (k : tkey) : string :=
-  String.append (frac (fst k mod sec)) (String.append "Z," (snd k)).
-Definition max_rest (now : Z) : string := String.append (frac (now mod sec)) "Z".
-
 Definition tkey_cmp (a b : tkey) : comparison :=
-  match Z.compare (fst a / sec) (fst b / sec) with
-  | Eq => String.compare (key_rest a) (key_rest b)
+  match Z.compare (fst a) (fst b) with
+  | Eq => String.compare (snd a) (snd b)
   | c => c
   end.
 Definition tkey_ltb (a b : tkey) : bool := match tkey_cmp a b with Lt => true | _ => false end.
 Definition tkey_eqb (a b : tkey) : bool := (fst a =? fst b) && String.eqb (snd a) (snd b).
 
-(** work: [bytes.Compare(k, max) <= 0] with max = now rendered as RFC3339Nano. *)
-Definition key_due (k : tkey) (now : Z) : bool :=
-  match Z.compare (fst k / sec) (now / sec) with
-  | Lt => true
-  | Gt => false
-  | Eq => str_leb (key_rest k) (max_rest now)
-  end.
+(** work: [bytes.Compare(k, max) <= 0] with max = now rendered with the same
+    fixed-width layout: the key "<instant>,<aid>" is longer than max, so it is
+    <= max iff its instant is strictly earlier than now. *)
+Definition key_due (k : tkey) (now : Z) : bool := fst k <? now.
 
 (** ** The time bucket (ordered map on tkey) *)
 
@@ -155,7 +135,7 @@ Definition update (c : crolt) (j : bjob) (at_ : Z) : crolt :=
 
 (** Cron.Add.  [j] is the client's job (AddHandler unmarshals the request
     body straight into a Job, so [b_once], [b_evict] and [b_tid] are client
-    controlled); [at_] is the instant [set] computes. *)
+    controlled; Add overwrites [b_tid] with ""); [at_] is the instant [set] computes. *)
 Definition c_add (c : crolt) (j : bjob) (at_ : Z) : crolt * outcome unit :=
   match gen_aid (b_account j) (b_id j) with
   | Ok aid =>
@@ -163,7 +143,9 @@ Definition c_add (c : crolt) (j : bjob) (at_ : Z) : crolt * outcome unit :=
       | Some _ => (c, Err "exists")
       | None =>
           match set_flags j with
-          | Ok j' => (update c j' at_, Ok tt)
+          | Ok j' =>
+              (* j.TId = "": a new job has no time entry yet *)
+              (update c (mkB (b_account j') (b_id j') (b_kind j') (b_once j') (b_evict j') None) at_, Ok tt)
           | Err e => (c, Err e)
           | Panic w => (c, Panic w)
           | OutOfFuel => (c, OutOfFuel)
